@@ -216,6 +216,10 @@ MUTANTS = {
         ('smp-first-flags-index', 'dashlive/mpeg/mp4.py', "        if index == 0 and (flags & TrackFragmentRunBox.first_sample_flags_present):", "        if index == 1 and (flags & TrackFragmentRunBox.first_sample_flags_present):"),
         ('smp-offset-duration', 'dashlive/mpeg/mp4.py', "            rv[\"samples\"].append(ts)\n            offset += ts.size", "            rv[\"samples\"].append(ts)\n            offset += ts.duration or 0"),
         ('smp-default-size', 'dashlive/mpeg/mp4.py', "            rv['size'] = tfhd.default_sample_size", "            rv['size'] = tfhd.default_sample_duration"),
+        ('hdr-size0-short', 'dashlive/mpeg/mp4.py', "            size = src.tell() - position\n", "            size = src.tell() - pos\n"),
+        ('hdr-short-ext', 'dashlive/mpeg/mp4.py', "            if len(size_ext) != 8:\n                if options:\n                    options.log.debug(\n                        'Failed to read extended box size. pos=%d', position)\n                return None\n", ""),
+        ('hdr-ext-zero-ok', 'dashlive/mpeg/mp4.py', "            if not size:\n                if options:\n                    options.log.debug(\n                        'Failed to read atom size. pos=%d', position)\n                return None\n", ""),
+        ('hdr-hsize', 'dashlive/mpeg/mp4.py', '            "header_size": src.tell() - position,', '            "header_size": 8,'),
         ('mfhd-h', 'dashlive/mpeg/mp4.py', "        w.write('I', 'sequence_number')", "        w.write('H', 'sequence_number')"),
         ('mehd-swap', 'dashlive/mpeg/mp4.py', "        if self.version == 1:\n            w.write('Q', 'fragment_duration')\n        else:\n            w.write('I', 'fragment_duration')", "        if self.version == 0:\n            w.write('Q', 'fragment_duration')\n        else:\n            w.write('I', 'fragment_duration')"),
         ('trex-order', 'dashlive/mpeg/mp4.py', "        w.write('I', 'default_sample_duration')\n        w.write('I', 'default_sample_size')\n        w.write('I', 'default_sample_flags')\n\n", "        w.write('I', 'default_sample_size')\n        w.write('I', 'default_sample_duration')\n        w.write('I', 'default_sample_flags')\n\n"),
